@@ -202,6 +202,52 @@ let search (v : view) (al : byte list) (s0 : sstate) (i0 : ist) (fuel : int) =
       (ist_str i) iacc (v.v_stop i) sob (sdead al s) in
   search_gen v.v_step (ok v al) descr al s0 i0 fuel
 
+
+(* the same search with keys that may be arbitrarily large positives (bit sets of NFA states) *)
+let rec pos_key (p : positive) (b : Buffer.t) : unit =
+  match p with XH -> Buffer.add_char b '1' | XO q -> Buffer.add_char b 'o'; pos_key q b | XI q -> Buffer.add_char b 'i'; pos_key q b
+
+let search_big (stepf : ist -> byte -> ist) (okf : sstate -> ist -> bool)
+    (descr : sstate -> ist -> string) (al : byte list) (s0 : sstate) (i0 : ist) (fuel : int) :
+  (sstate, ist) relmap * int =
+  let tbl : (string, ist * sstate list ref) Hashtbl.t = Hashtbl.create 997 in
+  let key i = let b = Buffer.create 64 in pos_key (ikey i) b; Buffer.contents b in
+  let q = Queue.create () in
+  let count = ref 0 in
+  let add s i path =
+    let k = key i in
+    let cell = match Hashtbl.find_opt tbl k with
+      | Some (_, c) -> c
+      | None -> let c = ref [] in Hashtbl.add tbl k (i, c); c in
+    if not (List.exists (fun s' -> seqb s s') !cell) then begin
+      cell := s :: !cell; incr count;
+      if !count > fuel then raise OutOfFuel;
+      Queue.add (s, i, path) q
+    end in
+  add s0 i0 [];
+  while not (Queue.is_empty q) do
+    let (s, i, path) = Queue.pop q in
+    if not (okf s i) then raise (Mismatch (List.rev path, descr s i));
+    List.iter (fun b -> add (sstep s b) (stepf i b) (int_of_n b :: path)) al
+  done;
+  let m = Hashtbl.fold (fun _ (i, c) acc -> PositiveMap.add (ikey i) (i, !c) acc) tbl PositiveMap.empty in
+  (m, !count)
+
+(* the NFA printed by flex -T: (nfa (start n) (nodes (sym t1 t2 acc) ...) (ccls (neg (bytes ...)) ...)) *)
+let nfa_of (t : sx list) : nfa =
+  let node_of = function
+    | L [sym; t1; t2; acc] ->
+      let v = ai sym in
+      { n_sym = (if v = 257 then NEps else if v < 0 then NCcl (n_of_int (- v)) else NChr (n_of_int v));
+        n_t1 = n_of_int (ai t1); n_t2 = n_of_int (ai t2); n_acc = n_of_int (ai acc) }
+    | _ -> failwith "nfa node" in
+  let ccl_of = function
+    | L [neg; L bs] -> (ab neg, set_of (List.map (fun b -> n_of_int (ai b)) bs))
+    | _ -> failwith "nfa ccl" in
+  { n_nodes = List.map node_of (field "nodes" t);
+    n_ccls = List.map ccl_of (field "ccls" t);
+    n_start = n_of_int (ai (List.hd (field "start" t))) }
+
 let policy_of = function
   | L [r; A "never"] -> (ai r, RejNever)
   | L [r; A "always"] -> (ai r, RejAlways)
@@ -257,6 +303,28 @@ let () =
              (String.concat " " (List.map string_of_int path)) info
          | OutOfFuel ->
            Printf.printf "lockstep %s %d %d INCONCLUSIVE fuel\n" vname sc (if bol then 1 else 0))
+      | L [A "nfacheck"; fuel] ->
+        let nf = nfa_of (field "nfa" c) in
+        let v = nview nf in
+        let s0 = spec_start prog (n_of_int 1) false in
+        let i0 = v.v_start Z0 false in
+        let descr s i =
+          let sob = String.concat "," (List.map (fun x -> string_of_int (int_of_n x)) (sobs s)) in
+          let st = match i with
+            | St z -> let x = Z.to_N z in
+              Printf.sprintf "nfa_states={%s} nfa_first_rule=%d"
+                (String.concat "," (List.map (fun q -> string_of_int (int_of_n q)) (members nf x))) (int_of_n (nacc nf x))
+            | Jam -> "nfa_states={} nfa_first_rule=0"
+            | Bad -> "nfa-simulation-undefined (malformed dump or closure not reached)" in
+          Printf.sprintf "%s spec_rules=[%s] spec_dead=%b" st sob (sdead al s) in
+        (try
+           let (m, cnt) = search_big v.v_step (ok v al) descr al s0 i0 (ai fuel) in
+           let verdict = check_view v al m s0 i0 in
+           Printf.printf "nfacheck %s pairs=%d wf=%b\n" (if verdict then "OK" else "CHECK-FAILED") cnt (wf_nfa nf)
+         with
+         | Mismatch (path, info) ->
+           Printf.printf "nfacheck MISMATCH input=[%s] %s\n" (String.concat " " (List.map string_of_int path)) info
+         | OutOfFuel -> Printf.printf "nfacheck INCONCLUSIVE fuel\n")
       | L [A "lockstep_r"; A vname; L vars; sc; bol; fuel] ->
         let t = List.assoc vname rtabs in
         let vars = List.map (fun v -> n_of_int (ai v)) vars in
